@@ -155,6 +155,7 @@ class Style:
         self.rng = rng
         self.serialisation = serialisation
         self.bnode_prefix = bnode_prefix
+        self.idmap = {}          # triples map id -> token to print instead of its absolute IRI (e.g. a relative IRI)
 
 
 def _const_node(m, bn):
@@ -183,9 +184,9 @@ def render_tmap(V, m, short_prop, full_prop, style, extra=''):
     elif m['k'] == 'ref':
         body.append('%s %s' % (_p(V.reference), ttl_str(m['v'])))
     elif m['k'] == 'quoted':
-        body.append('%s %s' % (_p(V.quoted), ttl_iri(m['v'])))
+        body.append('%s %s' % (_p(V.quoted), style.idmap.get(m['v']) or ttl_iri(m['v'])))
     elif m['k'] == 'parent':
-        body.append('%s %s' % (_p(V.parent_tm), ttl_iri(m['v'])))
+        body.append('%s %s' % (_p(V.parent_tm), style.idmap.get(m['v']) or ttl_iri(m['v'])))
     if m.get('tt'):
         body.append('%s %s' % (_p(V.term_type), _p(_termtype(V, m['tt']))))
     if extra:
@@ -270,7 +271,7 @@ def render_tm(V, t, srcs, style, paths):
         body += [render_obj(V, o, style) for o in p['objs']]
         body += [render_tmap(V, g, V.graph, V.graph_map, style) for g in p.get('graphs', [])]
         props.append('%s [ %s ]' % (_p(V.pom), ' ; '.join(body)))
-    return '%s %s .\n' % (ttl_iri(t['id']), ' ;\n   '.join(props))
+    return '%s %s .\n' % (style.idmap.get(t['id']) or ttl_iri(t['id']), ' ;\n   '.join(props))
 
 
 def render_mapping(case, style, paths, tms=None):
@@ -452,7 +453,7 @@ def materialise_files(case, wd, style=None, name='m'):
     return config_text(case, [('DS', opts)])
 
 
-def materialise_layout(case, wd, layout, style=None, name='m'):
+def materialise_layout(case, wd, layout, style=None, name='m', relative_ids=False):
     """Like materialise_files, but the triples maps are spread over several mapping files and data-source sections.
     layout: [[[tm ids of file 0 of section 0], [file 1]], [[file 0 of section 1]], ...]"""
     style = style or Style()
@@ -468,6 +469,8 @@ def materialise_layout(case, wd, layout, style=None, name='m'):
         names = []
         for fi, ids in enumerate(files):
             fn = '%s_s%d_f%d.ttl' % (name, si, fi)
+            # relative identifiers: every file names its triples maps <#L0>, <#L1>, ... (resolved against the file's own base)
+            style.idmap = {tid: '<#L%d>' % k for k, tid in enumerate(ids)} if relative_ids else {}
             with open(os.path.join(wd, fn), 'w', encoding='utf-8') as f:
                 f.write(render_mapping(case, style, paths, tms=[by_id[i] for i in ids]))
             names.append(fn)
